@@ -24,7 +24,11 @@ def make_case(idx, seed, logics, vectors, hist_ratio=0.35, big=False):
     rng = random.Random(f"engine-{seed}-{idx}")
     logic = logics[idx % len(logics)]
     opts = vectors[(idx // len(logics)) % len(vectors)]
-    if rng.random() < hist_ratio:
+    r = rng.random()
+    if r < hist_ratio / 2 and ":incremental false" not in opts:
+        p, script, checks = gen.clausal_history(logic, rng, options=opts)
+        kind = "clausal-history"
+    elif r < hist_ratio:
         p, script, checks = gen.history(logic, rng, options=opts, big=big)
         kind = "history"
     else:
@@ -43,6 +47,24 @@ def make_big_case(idx, seed, logics=("QF_UF", "QF_UFLIA", "QF_UFLRA", "QF_LRA", 
     opts = [] if idx % 5 else [":random-seed %d" % rng.randint(1, 1000)]
     script = "\n".join([f"(set-option {o})" for o in opts] + [p.set_logic()] + p.decls + [f"(assert {gen.smt(a)})" for a in asserts] + ["(check-sat)"]) + "\n"
     return {"idx": f"big{idx}", "logic": logic, "options": opts, "kind": "big-single", "script": script}
+
+
+def make_steered_case(idx, seed, options=()):
+    """propositional push/pop history steered by a brute-force oracle; carries the exact expected answers"""
+    rng = random.Random(f"engine-steered-{seed}-{idx}")
+    script, expected = gen.steered_bool_history(rng, options=options)
+    return {"idx": f"st{idx}", "logic": "QF_BOOL", "options": list(options), "kind": "steered-history", "script": script,
+            "expected": expected}
+
+
+def wrong_answers(case, result):
+    """indices of check-sat answers that contradict the brute-force oracle of a steered case"""
+    exp = case.get("expected")
+    if not exp or result["rc"] == "timeout":
+        return []
+    got = result["answers"]
+    return [(i, g, e) for i, (g, e) in enumerate(zip(got, exp)) if g in ("sat", "unsat") and g != e] + \
+        ([("count", len(got), len(exp))] if len(got) != len(exp) else [])
 
 
 def run_cases(cases, certify=True, timeout=20, flavour="hooks"):
